@@ -66,7 +66,23 @@ from exabgp.protocol.family import AFI
 from exabgp.protocol.ip import IP, IPRange, IPSelf, IPv4
 from exabgp.rib.route import Route
 
+# An UPDATE is at most 65535 bytes (RFC 8654): 19 of header, 4 for the two length fields. An
+# attribute value which does not leave room for its own header (4), the mandatory attributes
+# and one NLRI (128) can not be sent to any peer, whatever was negotiated: refuse it here
+# rather than fail (struct.error) or drop the route when the UPDATE is generated
+ATTRIBUTE_VALUE_MAX = 65535 - 19 - 4 - 4 - 128
+
+
+def _sendable(name: str, size: int) -> None:
+    if size > ATTRIBUTE_VALUE_MAX:
+        raise ValueError(
+            f'{name} is too large to be sent\n  It takes {size} bytes, an UPDATE can carry at most {ATTRIBUTE_VALUE_MAX}'
+        )
+
+
 ATTRIBUTE_BYTE_MAX = 0xFF  # attribute type code and flags are one byte each
+
+SPLIT_MAX = 128  # longest prefix a route can be split into (IPv6)
 
 # IP address validation constants
 EXTENDED_COMMUNITY_TARGET_PARTS = 2  # Target extended community has 2 parts (ASN:value)
@@ -175,6 +191,7 @@ def attribute(tokeniser: 'Tokeniser') -> GenericAttribute:
     if flag_int > ATTRIBUTE_BYTE_MAX:
         raise ValueError(f"'{flag}' is not a valid attribute flag\n  Must be 0x00 to 0xFF")
 
+    _sendable('attribute', len(data_bytes))
     return GenericAttribute.make_generic(code_int, flag_int, data_bytes)
 
     # for ((ID,flag),klass) in Attribute.registered_attributes.items():
@@ -274,6 +291,7 @@ def as_path(tokeniser: 'Tokeniser') -> AS2Path:
 
                 # Filter out any ASN that snuck in, only keep segment types
                 segments = [seg for seg in as_path if isinstance(seg, (SEQUENCE, CONFED_SEQUENCE, SET, CONFED_SET))]
+                _sendable('as-path', sum(2 + ASN.SIZE_4BYTE * len(seg) for seg in segments))
                 return AS2Path.make_aspath(segments, asn4=True)
 
             try:
@@ -351,11 +369,13 @@ def cluster_list(tokeniser: 'Tokeniser') -> ClusterList:
             clusterids.append(ClusterID.from_string(value))
         if not clusterids:
             raise ValueError('cluster-list is empty\n  Format: <cluster-id> or [ <cluster-id1>, <cluster-id2>, ... ]')
-        return ClusterList.make_clusterlist(clusterids)
+        clusterlist = ClusterList.make_clusterlist(clusterids)
     except (ValueError, OSError):
         raise ValueError(
             f"'{value}' is not a valid cluster-list\n  Format: <cluster-id> or [ <cluster-id1>, <cluster-id2>, ... ]"
         ) from None
+    _sendable('cluster-list', len(clusterids) * IPv4.BYTES)
+    return clusterlist
 
 
 def _community(value: str) -> Community:
@@ -416,6 +436,7 @@ def community(tokeniser: 'Tokeniser') -> Communities:
     else:
         communities.add(_community(value))
 
+    _sendable('community', len(communities))
     return communities
 
 
@@ -465,6 +486,7 @@ def large_community(tokeniser: 'Tokeniser') -> LargeCommunities:
     else:
         large_communities.add(_large_community(value))
 
+    _sendable('large-community', len(large_communities))
     return large_communities
 
 
@@ -609,6 +631,7 @@ def extended_community(tokeniser: 'Tokeniser') -> ExtendedCommunities:
     else:
         communities.add(_extended_community(value))
 
+    _sendable('extended-community', len(communities))
     return communities
 
 
@@ -638,6 +661,10 @@ def split(tokeniser: 'Tokeniser') -> int:
 
     if not size.isdigit():
         raise ValueError(f"'{cidr}' is not a valid split value\n  Format: /<prefix-length> (e.g., /24)")
+
+    # no address is longer than 128 bits; the number of routes to create is 2 ** (split - prefix length)
+    if int(size) > SPLIT_MAX:
+        raise ValueError(f"'{cidr}' is not a valid split value\n  Must be /0 to /{SPLIT_MAX}")
 
     return Split(int(size))
 
